@@ -1,0 +1,7 @@
+//go:build !verif
+
+package pubsub
+
+// verifYield marks a named scheduling point for the verification
+// harness. Without the "verif" build tag it does nothing.
+func verifYield(string) {}
